@@ -29,7 +29,7 @@ EXTRA = {
                            "Props/C12Codec.lean), whose text is compared with libstdc++ on every run (codec_probe)."),
     "C13": dict(props=["Gama/Props/C13Codec.lean"], targets=["Gama.Props.C13Codec"], drivers=["drv_codec"], streams=[_codec],
                 level_note="Network round trip and fixed point are instantiated for the real %g printer over Q "
-                           "(Props/C13Codec.lean); the sexagesimal text is covered for a stand-in printer only."),
+                           "(Props/C13Codec.lean); the real %g and sexagesimal gon2deg(·,0,4)/deg2gon printers over Q, angles=400 and 360."),
     "C19": dict(props=["Gama/Props/C19Codec.lean"], targets=["Gama.Props.C19Codec"], drivers=["drv_codec"], streams=[_codec],
                 level_note="The adjustment-data dump round trip is instantiated for the real precision(16) %g printer over Q "
                            "(Props/C19Codec.lean)."),
